@@ -11,10 +11,13 @@ import (
 	"errors"
 	"fmt"
 	"io"
+	"net"
 	"net/http"
+	"os"
 	"strings"
 	"sync"
 	"sync/atomic"
+	"syscall"
 	"time"
 )
 
@@ -259,6 +262,13 @@ func (b *Bridge) Handle(ctx context.Context, _ *http.Client, req *http.Request) 
 		defer close(done)
 		defer func() {
 			if r := recover(); r != nil {
+				if a, ok := r.(abortWith); ok {
+					if !w.wrote {
+						w.WriteHeader(200)
+					}
+					pipe.CloseWrite(a.err)
+					return
+				}
 				pipe.CloseWrite(fmt.Errorf("unexpected EOF (handler panic: %v)", r))
 				w.once.Do(func() { w.status = 0; close(w.ready) })
 				return
@@ -308,7 +318,12 @@ type FakeAction struct {
 	Raw    string // for raw: bytes of the HTTP body / the SSE data / the stdio line ({{id}} is replaced)
 	Code   int    // for rpc-error
 	CT     string // for raw on Streamable HTTP: the Content-Type of the response
+	Cut    int    // for fault: write only the first Cut bytes of Raw ...
+	Then   string // ... then: "close" (end of stream), "reset" (read error), "stall" (nothing more until the peer leaves), "exit0" "exit3" "kill9" (stdio child)
 }
+
+// abortWith lets a scripted handler end its response with a chosen read error on the client's side.
+type abortWith struct{ err error }
 
 // DefaultResult is the valid result the scripted peers give for a method.
 func DefaultResult(method string, params json.RawMessage) string {
@@ -479,6 +494,23 @@ func (f *FakeServer) ServeHTTP(w http.ResponseWriter, r *http.Request) {
 		http.Error(w, "scripted status", act.Status)
 		return
 	}
+	if act.Kind == "fault" && kind == "request" {
+		ct := act.CT
+		if ct == "" {
+			ct = "application/json"
+		}
+		w.Header().Set("Content-Type", ct)
+		w.WriteHeader(200)
+		body := renderRaw(act.Raw, method, m.ID, m.Params)
+		cut := act.Cut
+		if cut > len(body) {
+			cut = len(body)
+		}
+		io.WriteString(w, body[:cut])
+		w.(http.Flusher).Flush()
+		finishFault(act.Then, r)
+		return
+	}
 	if act.Kind == "raw" && kind == "request" {
 		ct := act.CT
 		if ct == "" {
@@ -533,6 +565,13 @@ func (f *FakeServer) serveLegacy(w http.ResponseWriter, r *http.Request) {
 		for {
 			select {
 			case fr := <-ch:
+				if strings.HasPrefix(fr, "FAULT:") {
+					p := strings.SplitN(fr, ":", 3)
+					io.WriteString(w, p[2])
+					w.(http.Flusher).Flush()
+					finishFault(p[1], r)
+					return
+				}
 				if strings.HasPrefix(fr, "RAW:") {
 					io.WriteString(w, fr[4:])
 				} else {
@@ -566,7 +605,14 @@ func (f *FakeServer) serveLegacy(w http.ResponseWriter, r *http.Request) {
 			return
 		}
 		w.WriteHeader(http.StatusAccepted)
-		if kind == "request" && act.Kind == "raw" {
+		if kind == "request" && act.Kind == "fault" {
+			body := "event: message\ndata: " + renderRaw(act.Raw, method, m.ID, m.Params) + "\n\n"
+			cut := act.Cut
+			if cut > len(body) {
+				cut = len(body)
+			}
+			ch <- "FAULT:" + act.Then + ":" + body[:cut]
+		} else if kind == "request" && act.Kind == "raw" {
 			ch <- "RAW:" + strings.ReplaceAll(renderRaw(act.Raw, method, m.ID, m.Params), "{{endpoint}}", "/message?sessionId="+sid)
 		} else if kind == "request" && act.Kind != "silent" {
 			if fr := RenderAnswer(act, method, m.ID, m.Params); fr != "" {
@@ -640,4 +686,17 @@ func renderRaw(raw, method string, id, params json.RawMessage) string {
 	raw = strings.ReplaceAll(raw, "{{valid-a}}", valid[:cut])
 	raw = strings.ReplaceAll(raw, "{{valid-b}}", valid[cut:])
 	return strings.ReplaceAll(strings.ReplaceAll(raw, "{{valid}}", valid), "{{id}}", string(id))
+}
+
+// finishFault ends a scripted response the way the fault says.
+func finishFault(then string, r *http.Request) {
+	switch then {
+	case "reset":
+		panic(abortWith{&net.OpError{Op: "read", Net: "tcp", Err: os.NewSyscallError("read", syscall.ECONNRESET)}})
+	case "truncate":
+		panic(abortWith{io.ErrUnexpectedEOF})
+	case "stall":
+		<-r.Context().Done()
+	}
+	// "close": just return (end of stream)
 }
